@@ -2,3 +2,16 @@
 //!
 //! Thin public wrappers around crate-private items so that an external verification harness can
 //! drive them directly.  Nothing in here changes the behaviour of the crate.
+
+/// Extended-diagnostics buffer (`dp::ExtendedDiagnostics`): crate-private constructor and `fill`.
+pub mod diag {
+    /// `ExtendedDiagnostics::from_buffer` over a caller-provided slice.
+    pub fn ext_diag_from_buffer<'a>(buffer: &'a mut [u8]) -> crate::dp::ExtendedDiagnostics<'a> {
+        crate::dp::ExtendedDiagnostics::from_buffer(buffer.into())
+    }
+
+    /// `ExtendedDiagnostics::fill`
+    pub fn ext_diag_fill(ext_diag: &mut crate::dp::ExtendedDiagnostics<'_>, buf: &[u8]) -> bool {
+        ext_diag.fill(buf)
+    }
+}
